@@ -1,6 +1,7 @@
 mod interp;
 mod prog;
 mod dfs;
+mod failhist;
 mod pct;
 mod randcheck;
 mod rec;
@@ -25,16 +26,18 @@ fn read_progs(path: &str) -> Vec<Prog> {
         .map(|l| l.unwrap())
         .filter(|l| !l.trim().is_empty())
         .map(|l| serde_json::from_str::<Prog>(&l).unwrap_or_else(|e| panic!("bad program {l}: {e}")))
-        .map(|mut p| {
-            while p.tls_touch.len() < 2 {
-                p.tls_touch.push(-1);
-            }
-            while p.tls_yield.len() < 2 {
-                p.tls_yield.push(0);
-            }
-            p
-        })
+        .map(normalize)
         .collect()
+}
+
+pub fn normalize(mut p: Prog) -> Prog {
+    while p.tls_touch.len() < 2 {
+        p.tls_touch.push(-1);
+    }
+    while p.tls_yield.len() < 2 {
+        p.tls_yield.push(0);
+    }
+    p
 }
 
 pub fn config_for(p: &Prog) -> Config {
@@ -495,6 +498,10 @@ fn main() {
         Some("one") => cmd_one(&args),
         Some("enum") => cmd_enum(&args),
         Some("directed") => cmd_directed(&args),
+        Some("failhist") => {
+            failhist::run(arg(&args, "--spec").expect("--spec"));
+            return;
+        }
         Some("serial") => {
             IN_EXEC.store(true, std::sync::atomic::Ordering::Relaxed);
             let r = serial::run(arg(&args, "--vectors").expect("--vectors"));
